@@ -158,7 +158,9 @@ func TestC05(t *testing.T) {
 			pos := c.Pick("fault.at", len(stream))
 			ch := stream[pos]
 			kind := core.OneOf(c, "fault.kind", "flip-ciphertext", "flip-mac", "flip-header", "flip-length", "truncate", "cut", "dup-now", "dup-later", "reorder", "drop", "inject-random", "inject-foreign", "inject-tiny")
-			if ch.orig < 0 && strings.HasPrefix(kind, "flip") {
+			if (ch.orig < 0 || len(ch.data) < 30) && strings.HasPrefix(kind, "flip") {
+				// Injected garbage and remnants of a truncation are not link frames
+				// with a header, ciphertext and MAC to aim at.
 				kind = "drop"
 			}
 			faultKinds = append(faultKinds, kind)
